@@ -16,6 +16,9 @@ are hypotheses).
   only state touched is the prefix wrapper's 8 scratch bytes, and `pure_next_send` /
   `pure_all_sends`: every later record (hence what the peer sees and accepts) is byte-for-byte the
   same as without the call;
+* `keystream_tracks_seq` — two calls with the same length separated by one record: the first
+  returns the keystream for the nonce of `seq`, the second the keystream for the nonce of `seq + 1`
+  (and `nonce_changes`: those nonces differ) — a result remembered from an earlier record is wrong;
 * `keystream_unsupported` — for every non-AEAD cipher (CBC, RC4, none) the call returns the error
   and changes nothing.
 -/
@@ -333,6 +336,78 @@ theorem pure_all_sends (C : Crypto) (c : Conn) (hiv : c.out.iv.length = 12) (dat
       · simp only [hs, if_false, Bool.false_eq_true]
         rw [hrec tApp _ hd]
         exact ⟨rfl, fun _ _ => rfl⟩
+
+/-! ### the keystream follows the sequence number -/
+
+private theorem xorInto_inj (m a c : Bytes) (ha : a.length = c.length) (hl : a.length ≤ m.length)
+    (h : xorInto m a = xorInto m c) : a = c := by
+  induction m generalizing a c with
+  | nil =>
+    cases a with
+    | nil => cases c with
+      | nil => rfl
+      | cons => simp at ha
+    | cons => simp at hl
+  | cons x xs ih =>
+    cases a with
+    | nil => cases c with
+      | nil => rfl
+      | cons => simp at ha
+    | cons y ys =>
+      cases c with
+      | nil => simp at ha
+      | cons z zs =>
+        simp only [xorInto, List.cons.injEq] at h
+        have hyz : y = z := by
+          have := congrArg (fun t => x ^^^ t) h.1
+          simpa [← UInt8.xor_assoc] using this
+        rw [hyz, ih ys zs (by simpa using ha) (by simpa using hl) h.2]
+
+/-- consecutive sequence numbers give different 12-byte nonces, for both wrappers. -/
+theorem nonce_changes (w : Wrapper) (iv : Bytes) (hiv : iv.length = 12) (n : Nat) :
+    nonceFor w iv (seq8 n) ≠ nonceFor w iv (seq8 (n + 1)) := by
+  have hseq : seq8 n ≠ seq8 (n + 1) := by
+    intro h
+    have h8 : (seq8 n).getLast? = (seq8 (n + 1)).getLast? := by rw [h]
+    simp only [seq8, List.getLast?_cons_cons, List.getLast?_singleton, Option.some.injEq] at h8
+    have := congrArg UInt8.toNat h8
+    rw [b_toNat, b_toNat] at this
+    omega
+  intro h
+  cases w with
+  | pfx =>
+    simp only [nonceFor] at h
+    rw [copyInto_full _ _ (by simp [hiv]), copyInto_full _ _ (by simp [hiv])] at h
+    exact hseq (List.append_cancel_left h)
+  | xor =>
+    simp only [nonceFor] at h
+    exact hseq (xorInto_inj _ _ _ (by simp) (by simp [hiv]) (List.append_cancel_left h))
+
+/-- **keystream_tracks_seq**: call `GetOutKeystream(n)`, send one record (any type and payload),
+call `GetOutKeystream(n)` again with the same `n`. The first result starts with the keystream for the
+nonce of the old sequence number, the second with the keystream for the nonce of the *next* sequence
+number (same key, same fixed nonce part) — each call describes the record that follows *it*. -/
+theorem keystream_tracks_seq (P : Prim) (hP : P.Laws) (C : Crypto) (s : Suite) (w : Wrapper) (hk : s.kind = .aead w)
+    (h : Half) (hiv : h.iv.length = 12) (typ : Nat) (payload : Bytes) (n : Nat) (r1 r2 : Bytes)
+    (h1 : (getOutKeystream P (outView s h) n).1 = some r1)
+    (h2 : (getOutKeystream P (outView s (encrypt C s (afterCall s h) typ payload).2) n).1 = some r2) :
+    r1.take n = P.ks h.key (nonceFor w h.iv (seq8 h.seq)) n ∧
+    r2.take n = P.ks h.key (nonceFor w h.iv (seq8 (h.seq + 1))) n ∧
+    nonceFor w h.iv (seq8 h.seq) ≠ nonceFor w h.iv (seq8 (h.seq + 1)) := by
+  have hov : outView s h = ⟨.aead w h.key h.iv, h.seq⟩ := by simp [outView, hk]
+  rw [hov] at h1
+  refine ⟨keystream_take P hP w h.key h.iv h.seq n n r1 (Nat.le_refl _) h1, ?_, nonce_changes w h.iv hiv h.seq⟩
+  rw [pure_next_send C s h hiv] at h2
+  have hst : (encrypt C s h typ payload).2 =
+      { h with seq := h.seq + 1, iv := stateAfter w h.iv (seq8 h.seq) } := by
+    unfold encrypt
+    simp only [hk]
+    by_cases hv : s.vers = v13 <;> simp [hv]
+  have hov2 : outView s (encrypt C s h typ payload).2 =
+      ⟨.aead w h.key (stateAfter w h.iv (seq8 h.seq)), h.seq + 1⟩ := by rw [hst]; simp [outView, hk]
+  rw [hov2] at h2
+  have := keystream_take P hP w h.key _ (h.seq + 1) n n r2 (Nat.le_refl _) h2
+  rw [this, (nonceFor_afterCall w h.iv hiv (seq8 h.seq) (seq8 (h.seq + 1)) (by simp) (by simp)).1]
 
 /-- **keystream_unsupported**: `GetOutKeystream` works exactly for the ciphers that are a
 `cipher.AEAD` — `prefixNonceAEAD` (TLS 1.2 AES-GCM) and `xorNonceAEAD` (TLS 1.3 suites, TLS 1.2
